@@ -38,7 +38,9 @@ SplitClauses(src, caps, ps, srcAfter, absBefore, absAfter) ==
           <<"restruck-same-velocity", \A y \in frags : \E x \in Notes(se) :
                                          x.ch = y.ch /\ x.p = y.p /\ x.v = y.v /\ x.s <= y.s /\ y.e <= x.e>>,
           <<"non-note-events-at-original-ticks", otherBag = NonNoteBag(se)>>,
-          <<"source-unchanged", srcAfter = src /\ absAfter = absBefore>> >>
+          (* the relative view literally; the absolute view as timed events (the stored order of the events of one
+             tick is not content: reading the relative view brings it into canonical order) *)
+          <<"source-unchanged", srcAfter = src /\ BagOfSeq(absAfter) = BagOfSeq(absBefore)>> >>
 
 (* ---- reference transition system ---- *)
 CONSTANTS Scores, CapLists, Defect
